@@ -173,6 +173,15 @@ PURE_EXTERNALS = {'strlen', 'memcmp', 'strcmp', 'strncmp', 'isalnum', 'isalpha',
                   '__builtin_expect', 'std::basic_string::size', 'std::basic_string::length', 'std::basic_string::empty', 'std::basic_string::c_str'}
 
 
+PURE_STD_METHODS = {'size', 'length', 'empty', 'c_str', 'data', 'begin', 'end', 'cbegin', 'cend', 'front', 'back', 'at', 'operator[]', 'get',
+                    'joinable', 'count', 'find', 'capacity', 'max_size', 'operator bool', 'operator==', 'operator!=', 'operator<', 'compare'}
+
+
+def pure_external(q):
+    q = q or ''
+    return q in PURE_EXTERNALS or (q.startswith('std::') and q.split('::')[-1] in PURE_STD_METHODS) or q in ('isupper', 'islower', 'isspace', 'toupper', 'tolower', 'labs', 'strchr', 'strstr', 'memchr')
+
+
 def has_effects(prog, fn, memo=None, depth=0):
     """Does calling fn change anything but its own locals (stores through members / globals / pointers, waits, locks, I/O,
     allocation), directly or through what it calls?  Unknown callees count as effects."""
@@ -198,7 +207,7 @@ def has_effects(prog, fn, memo=None, depth=0):
                 if g is not None and g.get('body') is not None:
                     if has_effects(prog, g, memo, depth + 1):
                         res = True
-                elif cal.get('q') in PURE_EXTERNALS or (k == 'CXXConstructExpr' and not cal.get('q')):
+                elif pure_external(cal.get('q')) or (k == 'CXXConstructExpr' and not cal.get('q')):
                     pass
                 else:
                     res = True
@@ -235,7 +244,7 @@ def assert_conditions(prog, rec, rule, key, dirs):
                     if g is not None:
                         if has_effects(prog, g, memo):
                             why = 'a call of %s, which changes state (waits, stores or calls something that does)' % g['q']
-                    elif cal.get('q') not in PURE_EXTERNALS:
+                    elif not pure_external(cal.get('q')):
                         why = 'a call of %s' % cal.get('q')
                 if why:
                     break
